@@ -2107,12 +2107,28 @@ func sectionRace(rng *vh.Rng) {
 		if j, err := srv.Journals.GetOrCreate(context.Background(), src); err == nil {
 			j.Sync() // the records are confirmed: Count() is ahead of the entry's Recs
 		}
-		for i := 0; i < 3; i++ {
-			rq(1000, 2000) // syncChunks with the chunk ahead of its live entry
+		// a reader enters syncChunks with the chunk ahead of its live entry and is parked between the two locked sections
+		// (where the a2ca477 shape had stored an EMPTY chunk list for the partition); the writer's notification runs there
+		rParked, rRelease, rDone := make(chan struct{}), make(chan struct{}), make(chan struct{})
+		var ronce sync.Once
+		verifhook.Set("tmindex.syncChunks.betweenLocks", func() {
+			ronce.Do(func() { close(rParked); <-rRelease })
+		})
+		go func() {
+			defer close(rDone)
+			rq(1000, 2000)
+		}()
+		select {
+		case <-rParked:
+		case <-time.After(3 * time.Second):
+			res.Note("race: the reader did not reach syncChunks' hook")
 		}
 		verifhook.Set("partition.write.beforeCIndex", nil)
 		close(release)
 		p := <-done
+		verifhook.Set("tmindex.syncChunks.betweenLocks", nil)
+		close(rRelease)
+		<-rDone
 		res.Eval(sec, fmt.Sprint(in))
 		if p != "" {
 			if len(p) > 1500 {
